@@ -1,6 +1,6 @@
 (* C06 — Picture headers are parsed field-for-field as H.263 and Sorenson define them. *)
 From H263V Require Import base.Prelude model.Types model.Reader model.Header spec.SpecHeader
-  proofs.HeaderLemmas proofs.HeaderRoundTrip proofs.PlusRoundTrip proofs.PlusChain proofs.HeaderReject.
+  proofs.HeaderLemmas proofs.HeaderRoundTrip proofs.PlusRoundTrip proofs.PlusChain proofs.HeaderReject proofs.HeaderFits.
 
 (* Sorenson Spark: for EVERY combination of version, temporal reference, size code (8- and 16-bit custom
    sizes, five fixed sizes, reserved), picture type, deblocking flag, quantizer and extra-information bytes,
@@ -78,6 +78,14 @@ Theorem C06_tr_range : forall o prev r p r',
   decode_picture o prev r = Ok (Some p, r') -> 0 <= temporal_reference p < 1024.
 Proof. exact decode_picture_tr. Qed.
 
+(* ... its PQUANT in 0..31 (five bits), and the dimensions of the format it carries - Sorenson's 8- and 16-bit custom sizes, the
+   fixed sizes, CPFMT's nine-bit fields - within the 16-bit size fields of the decoder *)
+Theorem C06_fields_fit : forall o prev r p r',
+  decode_picture o prev r = Ok (Some p, r') ->
+  0 <= quantizer p <= 31 /\
+  (forall f w h, format p = Some f -> into_width_and_height f = Some (w, h) -> 0 <= w <= 65535 /\ 0 <= h <= 65535).
+Proof. exact (fun o prev r p r' H => conj (proj1 (decode_picture_fits o prev r p r' H)) (fun f w h Ef => proj2 (decode_picture_fits o prev r p r' H) f Ef w h)). Qed.
+
 (* non-vacuity: a concrete Sorenson header (version 1, TR 200, 17x9, disposable, deblock, q 31, two PEI bytes) *)
 Example C06_example :
   wf_sorenson (mkSor 1 200 (SzCustom8 17 9) 2 true 31 [7; 255]).
@@ -96,4 +104,5 @@ Print Assumptions C06_plus_roundtrip.
 Print Assumptions C06_plus_inherits.
 Print Assumptions C06_markers_rejected.
 Print Assumptions C06_tr_range.
+Print Assumptions C06_fields_fit.
 Print Assumptions C06_modes_persist.
